@@ -2,7 +2,7 @@
    split {x < pivot} / {x >= pivot}; the recursion produces a BisectTree with
    heap-numbered leaves; soundness of the checkers. *)
 From Coupe Require Import Lib.Prelude Lib.SFloat Model.Rcb.
-From Coq Require Import Permutation.
+From Coq Require Import Permutation FSets.FMapPositive.
 Open Scope Z_scope.
 
 (* ---------- list helpers ---------- *)
@@ -167,7 +167,7 @@ Section Proofs.
     intros Hv Hi. destruct (nth_opt_lt xs i Hi) as [p Hp].
     exists p.
     destruct xs as [|x0 rest]; [cbn in Hi; lia|].
-    unfold Rcb.reorder_split. rewrite Hp.
+    unfold Rcb.reorder_split. rewrite Hp. rewrite <- !rev_alt.
     set (tail := match i with O => rest | S j => set_nth rest j x0 end).
     assert (Hperm : Permutation (p :: tail) (x0 :: rest)).
     { unfold tail. destruct i as [|j]; cbn [nth_opt] in Hp.
@@ -184,7 +184,7 @@ Section Proofs.
       as (nl & nr & Hr & Hpm & Hnl & Hnr).
     rewrite !app_nil_r in Hr. rewrite Hr.
     exists (match nl with [] => [] | z :: a' => z :: rev a' end), (p :: nr).
-    split; [reflexivity|]. split; [reflexivity|]. split; [|split].
+    split; [reflexivity|]. split; [destruct nl; [reflexivity|rewrite <- rev_alt; reflexivity]|]. split; [|split].
     - eapply perm_trans; [|exact Hperm].
       eapply perm_trans; [apply Permutation_sym, Permutation_middle|]. apply perm_skip.
       eapply perm_trans; [|exact Hpm]. apply Permutation_app_tail.
@@ -380,6 +380,67 @@ Section Proofs.
           unfold in_heap in *; rewrite pow2_succ; set (P := (2 ^ N.of_nat k)%N) in *; nia.
   Qed.
 
+  (* ---------- the trie-based stores equal the sequential ones ---------- *)
+
+  Lemma succ_pos_inj a b : N.succ_pos a = N.succ_pos b -> a = b.
+  Proof.
+    intros H. apply N.succ_inj. rewrite <- !N.succ_pos_spec, H. reflexivity.
+  Qed.
+  Lemma succ_pos_succ a : N.succ_pos (N.succ a) = Pos.succ (N.succ_pos a).
+  Proof. destruct a; reflexivity. Qed.
+
+  (* [j]: the position the key [N.succ_pos j] stands for *)
+  Lemma readback_add m i v : forall p j,
+    readback (PositiveMap.add (N.succ_pos i) v m) (N.succ_pos j) p
+    = if ((j <=? i)%N && (i <? j + N.of_nat (length p))%N)%bool
+      then set_nth (readback m (N.succ_pos j) p) (N.to_nat (i - j)) v
+      else readback m (N.succ_pos j) p.
+  Proof.
+    induction p as [|w t IH]; intros j; cbn [readback length].
+    - destruct (N.leb_spec j i), (N.ltb_spec i (j + N.of_nat 0)); cbn [andb]; try reflexivity; lia.
+    - rewrite <- succ_pos_succ, IH. destruct (N.eq_dec i j) as [->|Hne].
+      + rewrite PositiveMap.gss, N.sub_diag. cbn [N.to_nat set_nth].
+        destruct (N.leb_spec j j), (N.ltb_spec j (j + N.of_nat (S (length t)))); cbn [andb]; try lia.
+        destruct (N.leb_spec (N.succ j) j); [lia|]. cbn [andb]. reflexivity.
+      + rewrite PositiveMap.gso by (intros Q; apply succ_pos_inj in Q; congruence).
+        destruct (N.leb_spec j i), (N.ltb_spec i (j + N.of_nat (S (length t)))), (N.leb_spec (N.succ j) i),
+          (N.ltb_spec i (N.succ j + N.of_nat (length t))); cbn [andb]; try lia; try reflexivity.
+        replace (N.to_nat (i - j)) with (S (N.to_nat (i - N.succ j))) by lia. reflexivity.
+  Qed.
+
+  Lemma readback_empty : forall p j, readback (PositiveMap.empty N) j p = p.
+  Proof. induction p as [|w t IH]; intros j; cbn [readback]; [reflexivity|]. rewrite PositiveMap.gempty, IH. reflexivity. Qed.
+
+  Lemma scatter_all_in_range : forall asg p,
+    scatter C p asg =
+    if forallb (fun x => Nat.ltb (ix (fst x)) (length p)) asg
+    then Ok (fold_left (fun q x => set_nth q (ix (fst x)) (snd x)) asg p) else Panic 3.
+  Proof.
+    induction asg as [|[it id] t IH]; intros p; cbn [scatter forallb fold_left fst snd]; [reflexivity|].
+    destruct (Nat.ltb (ix it) (length p)); cbn [andb]; [|reflexivity].
+    rewrite IH, set_nth_length. reflexivity.
+  Qed.
+
+  Theorem scatter_fast_eq p asg : scatter_fast C p asg = scatter C p asg.
+  Proof.
+    rewrite scatter_all_in_range. unfold scatter_fast. cbv zeta.
+    assert (Hrange : forallb (fun x : item * N => (ixN (fst x) <? N.of_nat (length p))%N) asg
+                     = forallb (fun x => Nat.ltb (ix (fst x)) (length p)) asg).
+    { clear. induction asg as [|x t IH]; cbn [forallb]; [reflexivity|]. rewrite IH. f_equal. unfold Rcb.ix.
+      destruct (N.ltb_spec (ixN (fst x)) (N.of_nat (length p))), (Nat.ltb_spec (N.to_nat (ixN (fst x))) (length p)); try reflexivity; lia. }
+    rewrite Hrange.
+    destruct (forallb (fun x => Nat.ltb (ix (fst x)) (length p)) asg) eqn:E; [|reflexivity]. f_equal.
+    assert (G : forall asg m, forallb (fun x => Nat.ltb (ix (fst x)) (length p)) asg = true ->
+              readback (fill C m asg) 1%positive p
+              = fold_left (fun q x => set_nth q (ix (fst x)) (snd x)) asg (readback m 1%positive p)).
+    { clear. induction asg as [|[it id] t IH]; intros m H; cbn [fill fold_left fst snd]; [reflexivity|].
+      cbn [forallb fst] in H. apply andb_true_iff in H. destruct H as [H1 H2]. apply Nat.ltb_lt in H1. unfold Rcb.ix in H1.
+      rewrite IH by exact H2. f_equal. change 1%positive with (N.succ_pos 0). rewrite readback_add.
+      destruct (N.leb_spec 0 (ixN it)); [|lia].
+      destruct (N.ltb_spec (ixN it) (0 + N.of_nat (length p))); [|lia]. cbn [andb]. rewrite N.sub_0_r. reflexivity. }
+    rewrite (G asg _ E), readback_empty. reflexivity.
+  Qed.
+
   (* ---------- stores, offset normalisation: rcb_core ---------- *)
 
   Notation rcb_core := (rcb_core C ltb leb mid dist addc zero inf within_tol old by_coord probe_max).
@@ -467,6 +528,7 @@ Section Proofs.
   Proof.
     intros fuel sched D k its sum bb p0 p Hv Hix Hne H. unfold Rcb.rcb_core in H.
     destruct (rcb_rec fuel sched D k its 0%N 0%nat sum bb) as [asg|e|s|] eqn:Hrec; cbn [bind] in H; try discriminate.
+    rewrite scatter_fast_eq in H.
     destruct (rcb_rec_spec _ _ _ _ _ _ _ _ _ _ Hv Hrec) as (PL & TL & RL).
     destruct (scatter C p0 asg) as [p1|e|s|] eqn:Hsc; cbn [bind] in H; try discriminate.
     destruct (scatter_spec _ _ _ Hsc) as [Hlen Hw].
@@ -507,6 +569,7 @@ Section Proofs.
   Proof.
     intros fuel sched D k its sum bb p0 p Hv Hix Hne H. unfold Rcb.rcb_core in H.
     destruct (rcb_rec fuel sched D k its 0%N 0%nat sum bb) as [asg|e|s|] eqn:Hrec; cbn [bind] in H; try discriminate.
+    rewrite scatter_fast_eq in H.
     destruct (rcb_rec_spec _ _ _ _ _ _ _ _ _ _ Hv Hrec) as (PL & TL & RL).
     destruct (scatter C p0 asg) as [p1|e|s|] eqn:Hsc; cbn [bind] in H; try discriminate.
     destruct (scatter_spec _ _ _ Hsc) as [Hlen Hw].
